@@ -509,6 +509,17 @@ func (s *Sim) startTask(name string, fn func()) {
 		t.prio = 1 + s.Sched.Draw(n+1)
 	}
 	s.Counters[CtSpawned]++
+	if s.inRun && s.running == nil {
+		// Created by the scheduler itself (timer function, finalizer run): the
+		// race detector drops the parent->child edge of goroutines created
+		// while synchronisation is ignored, so switch that off for the one
+		// statement. The child then inherits exactly what the scheduler has
+		// seen: the harness's set-up.
+		raceEnable()
+		go t.main()
+		raceDisable()
+		return
+	}
 	go t.main()
 }
 
